@@ -257,7 +257,7 @@ def cli_case(rng, focus=None):
             kv["failevery"] = rng.choice([2, 3, 5])
     valid = not bad
     if "failevery" in kv and rng.random() < 0.5:
-        kv["failkind"] = rng.choice(["panicerr", "panicstr", "nilmap", "errorf", "errunhash", "panicunhash", "paniclong", "panicint", "timefail", "timeerr"])
+        kv["failkind"] = rng.choice(["panicerr", "panicstr", "nilmap", "errorf", "errunhash", "panicunhash", "paniclong", "panicint", "panicis", "panicnilptr", "errnil", "fatalnil", "timefail", "timeerr"])
     if rng.random() < 0.15:
         kv["combine"] = 1
     if rng.random() < 0.08:
@@ -356,7 +356,7 @@ def cli_case(rng, focus=None):
         if rng.random() < 0.2:
             kv["fdur"] = rng.choice([120, 180])      # the run ends inside a stage
         if "failevery" in kv and rng.random() < 0.5:
-            kv["failkind"] = rng.choice(["panicerr", "panicstr", "nilmap", "errorf", "errunhash", "panicunhash", "paniclong", "panicint", "timefail", "timeerr"])
+            kv["failkind"] = rng.choice(["panicerr", "panicstr", "nilmap", "errorf", "errunhash", "panicunhash", "paniclong", "panicint", "panicis", "panicnilptr", "errnil", "fatalnil", "timefail", "timeerr"])
         if rng.random() < 0.15:
             kv["combine"] = 1
         return "cli " + " ".join("%s=%s" % (k, v) for k, v in kv.items())
